@@ -146,6 +146,14 @@ func Harness_C14_FormatFloat() {
 	verifCover("end")
 }
 
+func Harness_C14_SInterPNoValues() {
+	x := symBuf("x", 1)
+	verifAssume(x != "%")
+	verifAssert(SInterP("100%% done") == "100% done" && SInterP("") == "" && SInterP(x+"%%"+x) == x+"%"+x, "SInterP without values still formats: %% is one %")
+	verifAssert(SInterP("%s%%", x) == x+"%", "SInterP with a value")
+	verifCover("end")
+}
+
 func Harness_C14_Misc() {
 	p, msg := tryRun(func() { Assert(false, "boom") })
 	verifAssert(p && msg == "boom", "Assert false panics with the message")
